@@ -187,6 +187,27 @@ def split_content(p: dict):
     return c0, {m: v / c0 for m, v in p.items()}
 
 
+def factor_monomial(p: dict):
+    """p = m * p' where m is the largest monomial of *positive* generators dividing every
+    term (exponents may be negative: the minimum exponent is taken).  -> (m, p')"""
+    if len(p) < 2:
+        return (), p
+    common = None
+    for mono in p:
+        d = {g: e for g, e in mono if gen_positive(g)}
+        if common is None:
+            common = d
+        else:
+            common = {g: min(e, d[g]) for g, e in common.items() if g in d}
+        if not common:
+            return (), p
+    m = tuple(sorted(((g, e) for g, e in common.items() if e != 0), key=lambda ge: _gkey(ge[0])))
+    if not m:
+        return (), p
+    inv = mono_pow(m, Fraction(-1))
+    return m, {mono_mul(mono, inv): c for mono, c in p.items()}
+
+
 def const_pow(c: Fraction, q: Fraction) -> dict:
     """c ** q for rational c > 0 as a canonical monomial."""
     if c <= 0:
@@ -226,10 +247,11 @@ class Canon:
                 if not gen_positive(g):
                     self.obligations.add((pkey(p_atom(g)), "!=0"))
             return {mono_pow(m, Fraction(-1)): 1 / c}
-        c0, prim = split_content(p)
+        m, rest = factor_monomial(p)
+        c0, prim = split_content(rest)
         if sign_of(p) is None:
             self.obligations.add((pkey(prim), "!=0"))
-        return {((("pw", pkey(prim)), Fraction(-1)),): 1 / c0}
+        return {mono_mul(mono_pow(m, Fraction(-1)), ((("pw", pkey(prim)), Fraction(-1)),)): 1 / c0}
 
     def pow_rat(self, p: dict, q: Fraction) -> dict:
         if q.denominator == 1:
@@ -253,13 +275,14 @@ class Canon:
         if s == "+" and len(p) == 1:
             (m, c), = p.items()
             return p_mul(const_pow(c, q), {mono_pow(m, q): ONE})
-        c0, prim = split_content(p)
+        m, rest = factor_monomial(p)
+        c0, prim = split_content(rest)
         if s is None:
             self.obligations.add((pkey(p), ">0"))
         if c0 < 0:
             prim = p_neg(prim)
             c0 = -c0
-        return p_mul(const_pow(c0, q), {((("pw", pkey(prim)), q),): ONE})
+        return p_mul(const_pow(c0, q), {mono_mul(mono_pow(m, q), ((("pw", pkey(prim)), q),)): ONE})
 
     def root(self, p: dict, n: int) -> dict:
         if n == 1:
@@ -312,10 +335,14 @@ class Canon:
             return out
         if s is None:
             self.obligations.add((pkey(p), ">0"))
-        c0, prim = split_content(p)
+        m, rest = factor_monomial(p)
+        c0, prim = split_content(rest)
         if c0 < 0:
             c0, prim = -c0, p_neg(prim)
-        return p_add(self.ln_const(c0), p_atom(("ln", ("P", pkey(prim)))))
+        out = p_add(self.ln_const(c0), p_atom(("ln", ("P", pkey(prim)))))
+        for g, e in m:
+            out = p_add(out, p_scale(self.ln_gen(g), e))
+        return out
 
     def exp(self, p: dict) -> dict:
         out = p_const(1)
